@@ -4,4 +4,6 @@ INVARIANT DeliveredIncreasing
 INVARIANT OnlyKnownSenders
 INVARIANT AboveInitial
 INVARIANT SentWithin48Bits
+INVARIANT WireIncreasing
+INVARIANT WireWithin48Bits
 CHECK_DEADLOCK FALSE
